@@ -79,13 +79,12 @@ def readHash (v : Bytes) : Option (Int × Bytes) := (unmarshalHash v).val
 /-- RVExtRV value: a non-empty array whose first element is the mechanism name (a string);
 the arguments are the array of the remaining elements. -/
 def readExt (v : Bytes) : Option (Bytes × Bytes) :=
-  if v = [] then none else
   match arrayShift v with
   | .ok first rest =>
     match readText first with
     | some m => some (m, rest)
     | none => none
-  | _ => none
+  | .fail => none
 
 /-! ## Look-up -/
 
